@@ -400,7 +400,8 @@ def impl_digits(b, w):
 def gen_requests(entry, sep, zero, kind, s):
     """(driver request for the translated function, implementation result) or None"""
     if entry == "isoparse":
-        return "isogen.parse %s %s%s" % (sep_arg(sep), vlib.hexs(s), " b" if is_bytes_kind(kind) else ""), None
+        tok = {"str": "", "bytes": " b", "stream": " s", "bstream": " sb"}[kind.partition("@")[0]]
+        return "isogen.parse %s %s%s" % (sep_arg(sep), vlib.hexs(s), tok), None
     try:
         b = s.encode("ascii") if isinstance(s, str) else s
     except UnicodeEncodeError:
